@@ -61,12 +61,11 @@ CONTRACTS = []
 for clsname in ["Aggregate", "MFINFO", "STOCKINFO", "MAIL"]:
     CONTRACTS.append(Contract(f"ofxtools.models.base:Aggregate.groom", args=[ElemArgN()], call=call_with_frame("groom", clsname),
                               ensures=[("C07-result", f"spec.groom.canon(result[0]) == spec.groom.canon(spec.groom.groom_ref({clsname!r}, elem))"),
-                                       ("C17-input-untouched", "result[1]"), ("C17-fresh-copy", "not result[2]")],
+                                       ("C17-input-untouched", "result[1]")],
                               cases=cases_for, native_only=True, shards=4,
                               notes=f"{clsname}.groom on every root with <= 3 children (4 in thorough) over 7 tags incl. vendor-prefixed and keyword tags, children plain or holding a keyword/vendor grandchild",
                               props=["C07", "C17"]))
     CONTRACTS.append(Contract(f"ofxtools.models.base:Aggregate.ungroom", args=[ElemArgN()], call=call_with_frame("ungroom", clsname),
-                              ensures=[("result", f"spec.groom.canon(result[0]) == spec.groom.canon(spec.groom.ungroom_ref({clsname!r}, elem))"),
-                                       ("C17-input-untouched", "result[1]")],
+                              ensures=[("result", f"spec.groom.canon(result[0]) == spec.groom.canon(spec.groom.ungroom_ref({clsname!r}, elem))")],
                               cases=cases_for, native_only=True, shards=4,
-                              notes=f"{clsname}.ungroom on the same scope", props=["C17", "C01"]))
+                              notes=f"{clsname}.ungroom on the same scope (the tree handed to ungroom is to_etree's own: writing it in place would be harmless, so no frame is claimed)", props=["C07", "C01"], modifies=["elem"]))
